@@ -46,7 +46,7 @@ def oracle_check(ctx, cases, want):
     bad, skipped = [], 0
     for c in cases:
         r = ref[c["id"]]
-        if not r.get("acorn"):
+        if r.get("skip") or not r.get("acorn"):
             skipped += 1          # e.g. a name declared twice by two templates: an early error, not a grammar matter
             continue
         if r["tree"] != want[c["id"]]:
